@@ -1,4 +1,5 @@
 #pragma once
+#include <utility>
 
 namespace sqf::parser::sqf::bison
 {
@@ -47,14 +48,14 @@ namespace sqf::parser::sqf::bison
 
         void append(astnode node)
         {
-            children.push_back(node);
+            children.push_back(std::move(node));
         }
-        void append_children(const astnode& other)
-        { 
-            for (auto node : other.children)
+        void append_children(astnode other)
+        {
+            for (auto& node : other.children)
             {
-                append(node); 
-            } 
+                append(std::move(node));
+            }
         }
     };
 }
